@@ -113,6 +113,17 @@ def explore(run, tier):
                 if 0 <= n < 10 ** pl and n != cl:
                     newp = f'{n:0{pl}d}'.encode(codec)
                     cases.append(dict(base, data=(data[:hdr + po] + newp + data[hdr + po + pl:]).hex(), mut='relen'))
+            # the whole prefix rewritten as a SPELLING int() accepts: blanks, signs and underscores around small numbers —
+            # negative ones must never be accepted (the pointer would move backwards), whatever precedes the sign
+            spellings = [' -1', '-01', ' -9', '- 1', ' +1', '+01', '1  ', ' 1 ', '  1', '1_0', '-_1', '\t-1', ' -0', '-00'] if pl == 3 \
+                else ['-1', '-9', '+1', ' 1', '1 ', '-0', '+0', '\t1']
+            for sp in spellings:
+                try:
+                    newp = sp.encode(codec)
+                except UnicodeError:
+                    continue
+                if len(newp) == pl:
+                    cases.append(dict(base, data=(data[:hdr + po] + newp + data[hdr + po + pl:]).hex(), mut='respell'))
             # zero-length variable field in place (completeness: must be accepted)
             z = data[:hdr + po] + ('0' * pl).encode(codec) + data[hdr + co + cl:]
             cases.append(dict(base, data=z.hex(), mut='zerolen'))
